@@ -32,7 +32,11 @@ class CellFold:
         intr["cij.core.mode_gamma:interpolate_modes"] = lambda ev, a, k: Tup([vals[r] for r in roles])
         del intr["cij.core.phonon_contribution.nonshear:average_over_modes"]        # the real function is folded
         self.w = [sp.Symbol(f"w{q}", positive=True) for q in range(NQ)]
-        seeds[(LONG, "q_weights")] = ArrV(0, (NQ,), cells={(q,): self.w[q] for q in range(NQ)})
+        # the phonon input as the reader delivers it: one (coordinates, weight) pair per q-point; q_weights is folded from it
+        del seeds[(LONG, "q_weights")]
+        coords = [ArrV(0, (3,), cells={(i,): sp.Symbol(f"QCOORD_{q}_{i}", real=True) for i in range(3)}) for q in range(NQ)]
+        calc.attrs["qha_input"] = Obj("cij.io.traditional.qha_input:QHAInputData",
+                                      {"weights": Tup([Tup([coords[q], self.w[q]]) for q in range(NQ)], "list"), "nq": sp.Integer(NQ), "np": sp.Integer(NP)})
         calc.attrs["np"], calc.attrs["nq"] = sp.Integer(NP), sp.Integer(NQ)
         self.ev = Ev(model, seeds, intr, attr_hook=qha_attr_hook, ctx=ctx)
         self.E = {(q, m): sp.Symbol(f"E_{q}_{m}", positive=True) for q in range(NQ) for m in range(NP)}
